@@ -12,7 +12,8 @@ from .. import common
 from ..engine_bfs import Search, canon
 from ..engine_enum import Acc, run_shards
 from ..evidence import Report
-from .ports_common import Device, Horizon, install_seams, make_doubles
+from .ports_common import (Device, Endless, Horizon, install_seams,
+                           make_doubles, take)
 
 PROP = 'C11'
 H = 4        # idle sleeps tolerated inside one blocking call before cutting
@@ -345,6 +346,8 @@ def make_search(mido, kind, depth):
                 try:
                     for m in p.iter_pending():
                         items.append(m)
+                        if len(items) > 5000:
+                            raise Endless('iter_pending() does not end')
                     res = ('values', items)
                 except Exception as e:
                     # what was yielded before the failure was received
@@ -695,8 +698,8 @@ def bulk_backlog(mido, rep):
                                 break
                             got.append(m)
                     elif how == 'iter_pending':
-                        got = list(s.port.iter_pending())
-                        got += list(s.port.iter_pending())
+                        got = take(s.port.iter_pending())
+                        got += take(s.port.iter_pending())
                     else:
                         for _ in range(n):
                             got.append(s.port.receive())
@@ -779,10 +782,10 @@ def multi_functions(mido, rep):
             tshim.on_sleep = on_sleep
             try:
                 s, want = fresh(n)
-                judge('multi_iter_pending', ids(list(P.multi_iter_pending(
+                judge('multi_iter_pending', ids(take(P.multi_iter_pending(
                     s.children, **kw)), bool(yp), s), want, case)
                 s, want = fresh(n)
-                judge('multi_receive(block=False)', ids(list(P.multi_receive(
+                judge('multi_receive(block=False)', ids(take(P.multi_receive(
                     s.children, block=False, **kw)), bool(yp), s), want, case)
                 # default: blocking - hands out what is there, then waits
                 s, want = fresh(n)
@@ -804,6 +807,10 @@ def multi_functions(mido, rep):
                                   f'after handing them out it {ended} '
                                   f'({sleeps[0]} sleeps); it must wait',
                                   case)
+            except Horizon:
+                rep.violation('multi-functions/non-blocking-form-waited',
+                              'multi_iter_pending / multi_receive(block=False) '
+                              'went to sleep instead of returning', case)
             except Exception as e:
                 rep.violation(f'multi-functions/raised/{type(e).__name__}',
                               f'{e!r}', case)
@@ -841,8 +848,13 @@ def run():
         srch.fill(rep)
         rep.add('evaluations', srch.transitions)
         rep.add('distinct_nontrivial', srch.transitions)
-    bulk_backlog(mido, rep)
-    multi_functions(mido, rep)
+        if 'call-never-returned' in rep.violations:
+            # the implementation hangs: every further port kind would wait
+            # for the same time limit again
+            break
+    if 'call-never-returned' not in rep.violations:
+        bulk_backlog(mido, rep)
+        multi_functions(mido, rep)
     rep.coverage['bulk_backlogs'] = list(BACKLOGS)
     rep.coverage['bfs_depth'] = depth
     rep.coverage['port_kinds'] = list(KINDS)
